@@ -18,6 +18,14 @@ use crate::{
     Error,
 };
 
+/// Returns the capacity to pre-allocate for `n` announced elements.
+///
+/// The announced number of elements cannot be trusted: it is bounded by the
+/// number of elements of at least `min_size` bytes that can still be read.
+fn bounded_capacity(n: usize, de: &Deserializer, min_size: usize) -> usize {
+    n.min(de.value().len() / min_size)
+}
+
 impl Serializable for TracingPublicKey {
     type Error = Error;
 
@@ -115,7 +123,7 @@ impl Serializable for MasterPublicKey {
     fn read(de: &mut Deserializer) -> Result<Self, Self::Error> {
         let tpk = de.read::<TracingPublicKey>()?;
         let n_coordinates = <usize>::try_from(de.read_leb128_u64()?)?;
-        let mut coordinate_keys = HashMap::with_capacity(n_coordinates);
+        let mut coordinate_keys = HashMap::with_capacity(bounded_capacity(n_coordinates, de, 32));
         for _ in 0..n_coordinates {
             let coordinate = de.read::<Right>()?;
             let pk = de.read::<RightPublicKey>()?;
@@ -174,7 +182,7 @@ impl Serializable for TracingSecretKey {
         }
 
         let n_users = <usize>::try_from(de.read_leb128_u64()?)?;
-        let mut users = HashSet::with_capacity(n_users);
+        let mut users = HashSet::with_capacity(bounded_capacity(n_users, de, 1));
         for _ in 0..n_users {
             let id = de.read()?;
             users.insert(id);
@@ -223,7 +231,8 @@ impl Serializable for MasterSecretKey {
     fn read(de: &mut Deserializer) -> Result<Self, Self::Error> {
         let tsk = de.read::<TracingSecretKey>()?;
         let n_coordinates = <usize>::try_from(de.read_leb128_u64()?)?;
-        let mut coordinate_keypairs = RevisionMap::with_capacity(n_coordinates);
+        let mut coordinate_keypairs =
+            RevisionMap::with_capacity(bounded_capacity(n_coordinates, de, 2));
         for _ in 0..n_coordinates {
             let coordinate = de.read()?;
             let n_keys = <usize>::try_from(de.read_leb128_u64()?)?;
@@ -371,14 +380,14 @@ impl Serializable for UserSecretKey {
 
         let n_ps = usize::try_from(de.read_leb128_u64()?)?;
 
-        let mut ps = Vec::with_capacity(n_ps);
+        let mut ps = Vec::with_capacity(bounded_capacity(n_ps, de, 32));
         for _ in 0..n_ps {
             let p = de.read()?;
             ps.push(p);
         }
 
         let n_coordinates = <usize>::try_from(de.read_leb128_u64()?)?;
-        let mut coordinate_keys = RevisionVec::with_capacity(n_coordinates);
+        let mut coordinate_keys = RevisionVec::with_capacity(bounded_capacity(n_coordinates, de, 2));
         for _ in 0..n_coordinates {
             let coordinate = de.read()?;
             let n_keys = <usize>::try_from(de.read_leb128_u64()?)?;
@@ -492,7 +501,7 @@ impl Serializable for XEnc {
     fn read(de: &mut Deserializer) -> Result<Self, Self::Error> {
         let tag = de.read_array::<TAG_LENGTH>()?;
         let n_traps = <usize>::try_from(de.read_leb128_u64()?)?;
-        let mut traps = Vec::with_capacity(n_traps);
+        let mut traps = Vec::with_capacity(bounded_capacity(n_traps, de, 32));
         for _ in 0..n_traps {
             let trap = de.read()?;
             traps.push(trap);
